@@ -971,3 +971,315 @@ def trait_defaults(crate):
                     "%s + for_each(push)" % ("with_capacity" if b.trait == "FromIterator" else "reserve") if ok else
                     "calls %s, closure calls %s" % (names, clnames)))
     return res
+
+
+# --------------------------------------------------------------------------------------------
+# COVER: the word loops of an op-assign kernel cover every word of self, rhs word at the same index
+# --------------------------------------------------------------------------------------------
+
+def _total_words(b):
+    """expression(s) denoting the number of words of self the kernel must cover"""
+    if b.self_family == "Bvf":
+        return [("cparam", "N"), ("cparam", "N1")]
+    return [("call", "capacity_from_bit_len", None, (SELF_LEN,))]
+
+
+def _is_total(e, totals, b):
+    for t in totals:
+        if e == t:
+            return True
+        if t[0] == "call" and is_call(e, t[1]) and e[3] == t[3]:
+            return True
+    return False
+
+
+def kernel_coverage(crate):
+    res = []
+    for b in crate.bodies:
+        if b.kind == "Closure" or b.self_family not in ("Bvf", "Bvd") or not b.loops():
+            continue
+        if b.trait not in ("AddAssign", "SubAssign", "BitAndAssign", "BitOrAssign", "BitXorAssign"):
+            continue
+        totals = _total_words(b)
+        evs = storage.events(b)
+        from . import mask as maskmod
+        maskmod.find_mask_events(b, evs)
+        ws = [e for e in evs if e.kind == "write" and not getattr(e, "is_mask", False) and e.obj == ("param", "self")]
+        heads, tails, fulls, other = [], [], [], []
+        probs = []
+        seen_iv = set()
+        for w in ws:
+            if w.index is None or w.index[0] != "iv":
+                other.append("write not indexed by a loop variable: %s" % show(w.target)[:60])
+                continue
+            if w.index[1] in seen_iv:
+                continue
+            seen_iv.add(w.index[1])
+            src = b.iter_source(w.index[1])
+            if not (src[0] == "agg" and src[1].startswith("Range")):
+                other.append("loop over %s" % show(src)[:60])
+                continue
+            lo, hi = src[3]
+            if lo == ("int", 0) and _is_total(hi, totals, b):
+                fulls.append(src)
+            elif lo == ("int", 0) and is_call(hi, "min") and any(_is_total(a, totals, b) for a in hi[3]):
+                x = [a for a in hi[3] if not _is_total(a, totals, b)]
+                heads.append(x[0] if x else None)
+            elif _is_total(hi, totals, b):
+                x = lo
+                if is_call(lo, "min"):
+                    xs = [a for a in lo[3] if not _is_total(a, totals, b)]
+                    x = xs[0] if xs else lo
+                tails.append(x)
+            else:
+                other.append("loop range %s is neither 0..words(self), 0..min(words(self), X) nor X..words(self)" % show(src))
+            # rhs word at the same index
+            vals = w.value if w.how.startswith("call:") else (w.value,)
+            for v in vals:
+                for x in walk(v):
+                    if is_call(x, "get_int") and len(x[3]) == 2 and x[3][0] == ("param", b.local_name(2)) and x[3][1] != w.index:
+                        probs.append("rhs word index %s differs from the lhs word index %s" % (show(x[3][1]), b.iv_name(w.index[1])))
+                    if isinstance(x, tuple) and x and x[0] == "index" and field_path_of(x) == [b.local_name(2), "data"] and x[2] != w.index:
+                        probs.append("rhs word index %s differs from the lhs word index" % show(x[2]))
+        probs += other
+        if sorted(show(h) for h in heads) != sorted(show(t) for t in tails):
+            probs.append("common-words loops 0..min(words(self), X) for X in %s are not matched by remaining-words loops X..words(self) (found tails for %s): "
+                         "the words of self above the shorter operand would not be processed"
+                         % ([show(h) for h in heads], [show(t) for t in tails]))
+        if not fulls and not heads:
+            probs.append("no loop covering the words of self found")
+        res.append((b, "%s|word coverage" % b.key, "violation" if probs else "pass",
+                    "; ".join(dict.fromkeys(probs)) if probs else
+                    "%d full loops, %d head/tail pairs over the words of self; rhs word taken at the same index" % (len(fulls), len(heads))))
+    # multiplication: schoolbook shape
+    for b in crate.bodies:
+        if b.kind == "Closure" or b.trait != "Mul" or b.self_family not in ("Bvf", "Bvd") or not b.loops():
+            continue
+        probs = []
+        cadds = [(bb, t) for bb, t, fn in b.iter_calls() if fn and fn["name"] == "cadd"]
+        if len(cadds) != 1:
+            probs.append("expected one cadd step, found %d" % len(cadds))
+        else:
+            bb, t = cadds[0]
+            dst, prod_lo, carry = (b.e_operand(a) for a in t["args"])
+            ok = dst[0] == "index" and is_bin(dst[2], "Add") and dst[2][2][0] == "iv" and dst[2][3][0] == "iv"
+            if not ok:
+                probs.append("partial product is accumulated at `%s`, expected res.data[i + j]" % show(dst))
+            else:
+                i, j = dst[2][2], dst[2][3]
+                si, sj = b.iter_source(i[1]), b.iter_source(j[1])
+                lenv = si[3][1] if si[0] == "agg" else None
+                if not (si[0] == "agg" and si[3][0] == ("int", 0) and lenv is not None and (
+                        (is_call(lenv, "int_len")) or is_call(lenv, "capacity_from_bit_len"))):
+                    probs.append("outer loop is %s, expected 0..words(result)" % show(si))
+                if not (sj[0] == "agg" and sj[3][0] == ("int", 0) and sj[3][1] == ("bin", "Sub", lenv, i)):
+                    probs.append("inner loop is %s, expected 0..(words - i)" % show(sj))
+                w = prod_lo[1] if prod_lo[0] == "field" else None
+                if not (w is not None and is_call(w, "wmul")):
+                    probs.append("addend is `%s`, expected the low word of wmul(..)" % show(prod_lo))
+                else:
+                    a0, a1 = w[3]
+                    if not (a0[0] == "index" and a0[2] == i and field_path(a0)[-1:] == ["data"] and root_of(a0) == ("param", "self")):
+                        probs.append("multiplicand word is `%s`, expected self.data[i]" % show(a0))
+                    okj = False
+                    for x in walk(a1):
+                        if (is_call(x, ("get_int", "get")) and len(x[3]) == 2 and x[3][1] == j):
+                            okj = True
+                    if not okj:
+                        probs.append("multiplier word `%s` is not indexed by j" % show(a1)[:60])
+                    if is_call(mir.strip_casts(a1), "unwrap_or"):
+                        d = mir.strip_casts(a1)[3][1]
+                        if not (_is_zero_const(d) or show(d) in ("0",)):
+                            probs.append("missing multiplier words default to %s, not zero" % show(d))
+        res.append((b, "%s|schoolbook shape" % b.key, "violation" if probs else "pass",
+                    "; ".join(probs) if probs else "res[i+j] += lo(self[i] * rhs[j]) for i in 0..words, j in 0..words-i, zero-extended rhs"))
+    return res
+
+
+def field_path_of(e):
+    """['self'|param name, field, ...] of a place expression rooted in a parameter"""
+    r = root_of(e)
+    if r[0] != "param":
+        return None
+    return [r[1]] + field_path(e)
+
+
+from .mir import field_path, root_of  # noqa: E402
+
+
+# --------------------------------------------------------------------------------------------
+# SIB: the three hand-cloned div_rem implementations agree slot by slot
+# --------------------------------------------------------------------------------------------
+
+def _div_rem_slots(b):
+    slots = {}
+    norm = lambda s: s.replace("self.length", "len(self)")
+    conds = []
+    for sb, cond, ts, fs in guard.cond_edges(b):
+        conds.append(norm(show(cond)))
+    slots["conds"] = sorted(set(conds))
+    calls = []
+    for bb, t, fn in b.iter_calls():
+        if fn and fn["name"] in ("resize", "shl_assign", "shr_assign", "sub_assign", "set", "rev", "zeros", "clone", "significant_bits", "is_zero"):
+            e = b.e_call(t)
+            calls.append("%s(%s)" % (e[1], ", ".join(norm(show(a)) for a in e[3])))
+    slots["calls"] = sorted(set(re.sub(r"iv\d+", "iv", c) for c in calls))
+    return slots
+
+
+def div_rem_siblings(crate):
+    res = []
+    impls = {b.self_family: b for b in crate.bodies if b.trait == "BitVector" and b.name == "div_rem"}
+    if len(impls) != 3:
+        return [(None, "SIB div_rem", "violation", "expected 3 div_rem implementations, found %d" % len(impls))]
+    ref = _div_rem_slots(impls["Bvd"])
+    for fam in ("Bvf", "Bv"):
+        s = _div_rem_slots(impls[fam])
+        diffs = []
+        for k in ("conds", "calls"):
+            a = [x for x in ref[k] if "try_into" not in x and "copy_range" not in x]
+            c = [x for x in s[k] if "try_into" not in x and "copy_range" not in x]
+            # the quotient/remainder are built by zeros(len)/copy: normalise the copy
+            a = [x.replace("clone(self)", "copy(self)") for x in a]
+            c = [x.replace("clone(self)", "copy(self)") for x in c]
+            if fam == "Bvf":
+                c = c + (["copy(self)"] if k == "calls" and "copy(self)" in a and "copy(self)" not in c else [])
+            a, c = sorted(set(a)), sorted(set(c))
+            if a != c:
+                diffs.append("%s differ: only in Bvd %s; only in %s %s" % (k, [x for x in a if x not in c], fam, [x for x in c if x not in a]))
+        res.append((impls[fam], "SIB div_rem %s vs Bvd" % fam, "violation" if diffs else "pass",
+                    "; ".join(diffs) if diffs else "guards, loop range, compare/subtract/set/shift steps agree with the Bvd copy"))
+    return res
+
+
+# --------------------------------------------------------------------------------------------
+# to_vec: endianness arms
+# --------------------------------------------------------------------------------------------
+
+def to_vec_arms(crate):
+    res = []
+    for b in crate.bodies:
+        if not (b.trait == "BitVector" and b.name == "to_vec" and b.self_family in ("Bvf", "Bvd")):
+            continue
+        sw = None
+        for sb, t in b.iter_switches():
+            e, m = b.switch_cond(sb)
+            if e == ("discr", P("endianness")):
+                sw = (sb, m)
+        if sw is None:
+            res.append((b, "%s|endianness arms" % b.key, "violation", "no match on the endianness"))
+            continue
+        sb, m = sw
+        arms = {}
+        for s, vals in m.items():
+            for v in vals:
+                if v in ("0", "1"):
+                    arms[v] = s
+        probs = []
+        for v, want in (("0", "little"), ("1", "big")):
+            if v not in arms:
+                probs.append("no arm for Endianness variant %s" % v)
+                continue
+            reach = b.reach_avoiding([arms[v]], avoid_blocks=[a for k, a in arms.items() if k != v])
+            idxs = []
+            for bb, i, st in b.iter_stmts():
+                if bb in reach and st["s"] == "assign" and st["p"]["pr"]:
+                    pe = b.e_place(st["p"])
+                    if pe[0] == "index" and root_of(pe)[0] == "var" and root_of(pe)[1] == "buf":
+                        idxs.append(pe[2])
+            for bb, t, fn in b.iter_calls():
+                if bb in reach and fn and fn["name"] == "index_mut":
+                    e = b.e_call(t)
+                    if root_of(e[3][0])[:2] == ("var", "buf"):
+                        idxs.append(e[3][1])
+            if not idxs:
+                probs.append("%s-endian arm writes no byte" % want)
+                continue
+            for ix in idxs:
+                if want == "little" and ix[0] != "iv":
+                    probs.append("little-endian arm stores byte i at `%s`, expected buf[i]" % show(ix))
+                if want == "big" and not (is_bin(ix, "Sub") and ix[3] == ("int", 1) and is_bin(ix[2], "Sub") and ix[2][3][0] == "iv"):
+                    probs.append("big-endian arm stores byte i at `%s`, expected buf[n - i - 1]" % show(ix))
+        res.append((b, "%s|endianness arms" % b.key, "violation" if probs else "pass",
+                    "; ".join(dict.fromkeys(probs)) if probs else "Little stores byte i at buf[i], Big at buf[n - i - 1]"))
+    return res
+
+
+# --------------------------------------------------------------------------------------------
+# SIB (stretch): hand-cloned Bvf / Bvd method pairs agree on their named slots after I -> u64
+# --------------------------------------------------------------------------------------------
+
+def _named_slots(b, skip=()):
+    out = {}
+    for l, d in enumerate(b.locals):
+        nm = d.get("name")
+        if nm and d["user"] and not b.is_param(l) and nm not in skip:
+            fd = b.full_defs(l)
+            out.setdefault(nm, sorted({_norm_word(show(b.e_def(x, 1, frozenset([l])))) for x in fd}))
+    conds = sorted({_norm_word(show(c)) for _, c, _, _ in guard.cond_edges(b)})
+    out["<branch conditions>"] = conds
+    return out
+
+
+def _norm_word(s):
+    s = re.sub(r"\bONE\b", "1", s)
+    s = re.sub(r"\bZERO\b", "0", s)
+    s = re.sub(r"\bMIN\b", "0", s)
+    s = re.sub(r"iv\d+", "iv", s)
+    s = re.sub(r"discr\((\w+)\) as u64", r"from(\1)", s)
+    s = re.sub(r"\binto\((\w+)\)", r"from(\1)", s)
+    s = s.replace("Bvd::", "").replace("Self::", "")
+    return s
+
+
+CLONED = {
+    # method -> slots excluded from the comparison (storage initialisers / forms that legitimately differ)
+    "shl_in": (), "shr_in": (),
+    "rotl": ("new_data",), "rotr": ("new_data",),
+    "trailing_zeros": (), "trailing_ones": (),
+    "leading_zeros": ("count",), "leading_ones": ("count",),
+    "resize": (), "to_vec": (),
+}
+
+
+def cloned_pairs(crate, methods=None):
+    res = []
+    def find(key):
+        for b in crate.bodies:
+            if b.key == key:
+                return b
+        return None
+    for m, skip in CLONED.items():
+        if methods and m not in methods:
+            continue
+        a, d = find("<Bvf<I, N> as BitVector>::%s" % m), find("<Bvd as BitVector>::%s" % m)
+        key = "SIB Bvf/Bvd %s" % m
+        if a is None or d is None:
+            res.append((a or d, key, "violation", "one of the two copies is missing"))
+            continue
+        sa, sd = _named_slots(a, skip), _named_slots(d, skip)
+        diffs = []
+        for k in sorted(set(sa) | set(sd)):
+            x, y = sa.get(k), sd.get(k)
+            if k == "<branch conditions>":
+                # Bvf::resize has the capacity assertion, Bvd::resize the reserve call: compare the common part
+                x = [c for c in x if "capacity()" not in c]
+                y = [c for c in y if "capacity()" not in c]
+            if x != y:
+                diffs.append("slot `%s`: Bvf %s vs Bvd %s" % (k, x, y))
+        res.append((a, key, "violation" if diffs else "pass",
+                    "; ".join(diffs)[:600] if diffs else "%d named slots agree after I -> u64" % len(sa)))
+    if methods is None or "shifts" in methods:
+        for ty in WORD_TYPES:
+            for tr, m in (("ShlAssign", "shl_assign"), ("ShrAssign", "shr_assign")):
+                a, d = find("<Bvf<I, N> as %s<%s>>::%s" % (tr, ty, m)), find("<Bvd as %s<%s>>::%s" % (tr, ty, m))
+                key = "SIB Bvf/Bvd %s<%s>" % (tr, ty)
+                if a is None or d is None:
+                    res.append((a or d, key, "violation", "one of the two copies is missing"))
+                    continue
+                sa, sd = _slots_shift(a), _slots_shift(d)
+                diffs = ["slot `%s`: Bvf %s vs Bvd %s" % (k, sa.get(k), sd.get(k)) for k in sorted(set(sa) | set(sd))
+                         if _norm_self(sa.get(k)) != _norm_self(sd.get(k))]
+                res.append((a, key, "violation" if diffs else "pass",
+                            "; ".join(diffs)[:600] if diffs else "narrowing, loop conditions, chunk length, old index, chunk agree"))
+    return res
